@@ -166,6 +166,10 @@ type PoolProg struct {
 	RefSpecs map[string][]*RunSpec
 	Bytes    map[string][]byte // reference output bytes per variant (may be nil when large)
 	ExecMs   float64
+	// Extra programs widen the set of instruction forms that meet in one process. They take their
+	// reference from one fresh process per variant (no I2 sampling, no CLI runs): a mismatch in a
+	// history is still a C10 violation, whichever of the two runs was the odd one.
+	Extra bool
 }
 
 var destNames = []string{"o.bin", "out.obj", "a", "x.img", "naskfunc.obj", "ipl.bin", "very_long_destination_file_name.output", "b.o"}
@@ -302,6 +306,8 @@ type histStats struct {
 	simNs                                                                         int64
 	draws                                                                         uint64
 	adjPairs                                                                      map[string]bool
+	progPairs                                                                     map[[2]string]bool // (A, B): A executed some time before B in this process
+	reexecProgs                                                                   map[string]bool    // programs whose tree was executed more than once
 	probes                                                                        map[string]int
 	sig                                                                           string
 	nontrivial                                                                    bool
@@ -310,7 +316,8 @@ type histStats struct {
 // evalHistory replays the script in the model and compares every journal entry. F maps
 // program key -> reference outcome for this variant.
 func evalHistory(spec *RunSpec, res *RunResult, F map[string]*RefOutcome, classes map[string]string) (*Violation, *histStats) {
-	st := &histStats{prefillKinds: map[string]int{}, adjPairs: map[string]bool{}, probes: map[string]int{}}
+	st := &histStats{prefillKinds: map[string]int{}, adjPairs: map[string]bool{}, probes: map[string]int{}, progPairs: map[[2]string]bool{}, reexecProgs: map[string]bool{}}
+	execdBefore := map[string]bool{}
 	sc := &spec.Script
 	byOp := map[int]*JLine{}
 	for i := range res.Journal {
@@ -381,7 +388,12 @@ func evalHistory(spec *RunSpec, res *RunResult, F map[string]*RefOutcome, classe
 			ref := F[key]
 			cls := classes[key]
 			sig.WriteString(cls)
+			for a := range execdBefore {
+				st.progPairs[[2]string{a, key}] = true
+			}
+			execdBefore[key] = true
 			if treeExecs[op.T] > 0 {
+				st.reexecProgs[key] = true
 				st.reexecSameTree++
 				perturbSinceExec = true
 				if treeExecs[op.T] >= 2 {
@@ -485,10 +497,13 @@ var longHistories = false
 func genHistory(seed uint64, variant string, pool []*PoolProg, admitted []int) *RunSpec {
 	r := NewRNG(seed)
 	long := (longHistories && r.Chance(1, 8)) || (!longHistories && r.Chance(1, 4)) || os.Getenv("VERIF_C10_ALL_LONG") != ""
+	// a tour executes (almost) every admitted program once in one process, in a random order: after a
+	// handful of tours every ordered pair (A some time before B) has been seen in both orders
+	tour := long && r.Chance(1, 2)
 	if long {
 		var small []int
 		for _, ix := range admitted {
-			if len(pool[ix].Src) < 6000 && (pool[ix].Ref[variant] == nil || pool[ix].Ref[variant].Len < 65536) {
+			if (len(pool[ix].Src) < 6000 && (pool[ix].Ref[variant] == nil || pool[ix].Ref[variant].Len < 65536)) || (tour && len(pool[ix].Src) < 60000) {
 				small = append(small, ix)
 			}
 		}
@@ -515,6 +530,9 @@ func genHistory(seed uint64, variant string, pool []*PoolProg, admitted []int) *
 	want := r.Range(3, 8)
 	if long {
 		want = r.Range(20, 48) // many different programs: many distinct instruction forms in one process
+		if tour {
+			want = r.Range(100, 200)
+		}
 	}
 	if want > len(admitted) {
 		want = len(admitted)
@@ -674,6 +692,38 @@ func genHistory(seed uint64, variant string, pool []*PoolProg, admitted []int) *
 		sort.Ints(ss)
 		return ss[r.Intn(len(ss))], true
 	}
+	if tour {
+		k.nops = 0
+		for _, li := range okProgs {
+			if sim && allocOps >= 6 {
+				sc.Ops = append(sc.Ops, Op{Op: "gc", Cycles: 2})
+				allocOps = 0
+			}
+			slot := r.Intn(nslots)
+			emitParse(li, slot)
+			emitExec(slot)
+			if r.Chance(1, 4) {
+				emitExec(slot) // the same tree once more
+			}
+			switch r.Intn(12) {
+			case 0:
+				sc.Ops = append(sc.Ops, Op{Op: "gc", Cycles: r.Range(1, 3)})
+				allocOps = 0
+			case 1:
+				sc.Ops = append(sc.Ops, Op{Op: "logcfg", Kind: pick(r, []string{"discard", "std", "info", "debug"})})
+			case 2:
+				if sim {
+					ns := int64(r.U64()%uint64(24*time.Hour)) + 1
+					simTotal += ns
+					sc.Ops = append(sc.Ops, Op{Op: "clock", Ns: ns})
+				}
+			case 3:
+				if s, ok := anySlot(); ok {
+					emitExec(s) // an older tree again
+				}
+			}
+		}
+	}
 	for len(sc.Ops) < k.nops {
 		if sim && allocOps >= 6 {
 			sc.Ops = append(sc.Ops, Op{Op: "gc", Cycles: 2})
@@ -738,7 +788,7 @@ func mutateSource(r *RNG, src []byte) []byte {
 	return []byte(strings.Join(lines, "\n"))
 }
 
-func buildPool(baseSeed uint64, nGen int, corpusDir string) []*PoolProg {
+func buildPool(baseSeed uint64, nGen, nExtra int, corpusDir string) []*PoolProg {
 	var pool []*PoolProg
 	seen := map[string]bool{}
 	add := func(p *Program, twinOf int) int {
@@ -783,6 +833,20 @@ func buildPool(baseSeed uint64, nGen int, corpusDir string) []*PoolProg {
 			add(bad, -1)
 		}
 	}
+	rx := NewRNG(deriveSeed(baseSeed, 102, 0))
+	for i := 0; i < nExtra; i++ {
+		ps := genProgram(rx, fmt.Sprintf("ext%04d", i), rx.Chance(1, 3), true)
+		a := add(ps[0], -1)
+		if a >= 0 {
+			pool[a].Extra = true
+		}
+		if len(ps) > 1 && a >= 0 {
+			if b := add(ps[1], a); b >= 0 {
+				pool[a].TwinOf = b
+				pool[b].Extra = true
+			}
+		}
+	}
 	return pool
 }
 
@@ -800,6 +864,9 @@ func (c *simCtx) computeRefs(pool []*PoolProg, variants []string, K int, baseSee
 			kk := K
 			if v == "native" {
 				kk = K + 2 // real threads and real entropy are only sampled: sample a little more
+			}
+			if pool[pi].Extra {
+				kk = 1
 			}
 			for k := 0; k < kk; k++ {
 				jobs = append(jobs, job{pi, v, k})
